@@ -78,6 +78,13 @@ def run(rep, tier, seed, replay=None):
                         c.script[ci][di] = big(rnd, c.script[ci][di])
                         rep.count("mutation:oversize")
                         cases.append(c.line(f"{v.id}big"))
+        # the family's own structured hostile replies (bookkeeping fields set to arbitrary values)
+        import importlib
+        fmod = importlib.import_module("props.families." + fam)
+        if hasattr(fmod, "hostile_variants"):
+            hv = fmod.hostile_variants(valids, rnd, tier)
+            rep.count("mutation:structured:" + fam, len(hv)) if hv else None
+            cases += hv
         # pure garbage scripts
         proto = valids[0].case()
         for k in range(60 if tier == "quick" else 2000):
